@@ -1,18 +1,30 @@
 #!/bin/bash
 # run_against.sh <dir with patch.diff> [props...]   (default: all 20)
-# Applies the patch to /repo, runs the quick checks, undoes it, restores evidence, prints one line per property.
+# Applies the patch to the repo ($VERIF_REPO, default /repo), runs the quick checks of the machinery in
+# $VERIF_DIR (default /verif) in parallel, undoes the patch, restores evidence, prints one line per property and
+# records the outcome in <dir>/meta.json.  For a long sweep use a copy of /verif and a worktree of /repo.
 D=$1; shift
+V=${VERIF_DIR:-/verif}; R=${VERIF_REPO:-/repo}; export VERIF_REPO=$R
 PROPS="$@"; [ -z "$PROPS" ] && PROPS="C01 C02 C03 C04 C05 C06 C07 C08 C09 C10 C11 C12 C13 C14 C15 C16 C17 C18 C19 C20"
-git -C /repo apply $D/patch.diff || { echo "PATCH DOES NOT APPLY"; exit 2; }
+git -C $R apply $D/patch.diff || { echo "PATCH DOES NOT APPLY"; exit 2; }
+T=$(mktemp -d)
+(cd $V && ./check C12 quick >/dev/null 2>&1)   # one serial run first: regenerates and builds once
+for p in $PROPS; do
+  ( cd $V && ./check $p quick 2>&1 | grep -E "^VIOLATION|^$p quick" | tr '\n' ' ' > $T/$p ) &
+  while [ $(jobs -r | wc -l) -ge ${JOBS:-6} ]; do sleep 1; done
+done
+wait
 RES=""
 for p in $PROPS; do
-  out=$(cd /verif && ./check $p quick 2>&1 | grep -E "^VIOLATION|^$p quick" | tr '\n' ' ')
-  if echo "$out" | grep -q "no-failing-input-found"; then v="obligation"; elif echo "$out" | grep -q VIOLATION; then v="VIOLATION"; else v="quiet"; fi
+  out=$(cat $T/$p)
+  if echo "$out" | grep -q "no-failing-input-found"; then v="obligation"; elif echo "$out" | grep -q VIOLATION; then v="VIOLATION"; elif echo "$out" | grep -q "^$p quick"; then v="quiet"; else v="error"; fi
   echo "  $p: $v"
   RES="$RES $p:$v"
 done
-git -C /repo checkout -- .
-for p in $PROPS; do git -C /verif checkout -- evidence/$p.json 2>/dev/null; done
+mkdir -p $D/replays; for p in $PROPS; do for f in $V/replays/$p-*.json; do [ -f "$f" ] && [ "$f" -nt $T ] && cp $f $D/replays/; done; done; rmdir $D/replays 2>/dev/null
+rm -rf $T
+git -C $R checkout -- .
+[ -d $V/.git ] && for p in $PROPS; do git -C $V checkout -- evidence/$p.json 2>/dev/null; done
 python3 - "$D" "$RES" <<'PY'
 import json,sys
 d,res=sys.argv[1:3]
